@@ -21,7 +21,7 @@ func init() {
 			"(R2) each plan range is built from the right numbers: LinearPipeline=[hand-off, stop), BuildStores=[lowest store initial block, hand-off), WriteExecOut ends at the hand-off and starts at the segment start of max(start, lowest init), ReadExecOut=[start, min(hand-off, stop)) with the clip guarded by stop≠0 ∧ stop<hand-off; the gate is max(hand-off, start); tier1 starts the block stream at the hand-off and stops it at the stop block and passes these same numbers to the plan; " +
 			"(R3) impossible requests are errors (start below the lowest init block, cursor after stop, LIB above the cursor block, unresolvable cursor, start == stop ≠ 0, segment lookup yielding nil); " +
 			"(R4) a cursor on a forked block yields an undo signal whose last valid block and cursor designate the junction, and processing restarts at junction+1 (step new) / at the block (step undo), a final cursor at block+1; " +
-			"(R5) every boundary rounding in the hand-off computation and the store-flush boundary is a well-formed floor/ceil idiom, and every value computeLinearHandoffBlockNum can return with a nil error is such a boundary — or the start block on paths where no store needs history, or the lowest store's initial block where it lies at or above the start block's floor (in both cases nothing is back-filled up to the hand-off). Also (R4) on success BuildRequestDetails returns the undo signal exactly as resolveStartBlockNum produced it. Also (R4) the error-discipline contradiction rules are silent on pipeline, orchestrator/plan and block.",
+			"(R5) every boundary rounding in the hand-off computation and the store-flush boundary is a well-formed floor/ceil idiom, and every value computeLinearHandoffBlockNum can return with a nil error is such a boundary — or the start block on paths where no store needs history, or the lowest store's initial block where it lies at or above the start block's floor (in both cases nothing is back-filled up to the hand-off). Also (R4) on success BuildRequestDetails returns the undo signal exactly as resolveStartBlockNum produced it. Also (R4) the error-discipline contradiction rules are silent on pipeline, orchestrator/plan and block. Also (R3) the plan's cached-output and store ranges are assigned behind strict comparisons with the hand-off.",
 		NotCovered:  "No-gap/no-overlap of the resulting ranges and that the right rounding is chosen in each branch of computeLinearHandoffBlockNum, over all configurations (integer arithmetic over runtime values).",
 		Assumptions: []string{"bstream cursor semantics (IsOnFinalBlock, Step.Matches)"},
 	})
@@ -462,6 +462,7 @@ func runC12(p *core.Prog, r *core.Report) {
 	// ------------------------------------------------------------------ R5
 	r.Guard("C12.R5", "handoff-values", "every hand-off is a boundary unless nothing is back-filled", func() { checkHandoffValues(p, r) })
 	r.Guard("C12.R4", "undo-signal-kept", "the resolved undo signal is returned", func() { checkUndoSignalKept(p, r, "C12.R4") })
+	r.GuardExact("C12.R3", "plan-strict-guards", "ranges planned only when non-empty", func() { checkPlanRangesStrictlyGuarded(p, r, "C12.R3") })
 	r.GuardExact("C12.R4", "error-discipline", "errors are tested where they are produced", func() {
 		checkErrorDiscipline(p, r, "C12.R4", []string{"pipeline", "orchestrator/plan", "block"}, 100)
 	})
